@@ -4,14 +4,14 @@
    Sim f mv acc s c relates the source s and the copy c:
      ALWAYS      volumes, the transactions table up to post-commit EFFECTIVE volumes (ids, postings, metadata, timestamps,
                  references, inserted_at, updated_at, reverted_at, post-commit volumes), the transaction metadata history,
-                 the logs;
+                 the logs; of the accounts table: the addresses, the current metadata and the insertion dates (row by row);
      mv = true   additionally the moves table (seq included), the effective volumes and the moves sequence: holds along
                  histories without dry runs, or without MOVES_HISTORY (a dry run consumes moves.seq values on the source);
      acc = true  additionally the accounts table (first usage, insertion date, updated_at) and the account metadata
                  history: holds along histories without SET/DELETE_METADATA on accounts (their import is what
                  C11_refuted_first_usage / C11_refuted_updated_at are about). *)
 From Coq Require Import List ZArith String Bool Ascii Lia Sorted.
-From LV Require Import Base.Util Base.Json Ledger.Types Ledger.Core Ledger.Bulk Ledger.Invariants Ledger.HashChain Ledger.Import Ledger.ImportProofs.
+From LV Require Import Base.Util Base.Json Ledger.Types Ledger.Core Ledger.Bulk Ledger.Invariants Ledger.ReplayProofs Ledger.HashChain Ledger.Import Ledger.ImportProofs.
 Import ListNotations.
 Open Scope Z_scope.
 
@@ -69,6 +69,125 @@ Lemma commutes_tx_with (g : meta -> meta) (upd : Z) (h : option Z -> option Z) :
   commutes (fun y => tx_with y (g (t_meta y)) upd (h (t_rev y))).
 Proof. intros x. reflexivity. Qed.
 
+(* ---------------------------------------------------------------- the account row without first usage / updated_at *)
+Definition aview := (addr * meta * Z)%type.                      (* address, current metadata, insertion date *)
+Definition av (a : account) : aview := (a_addr a, a_meta a, a_ins a).
+Definition av_addr (v : aview) : addr := fst (fst v).
+Definition av_set (g : meta -> meta) (a : addr) (v : aview) : aview :=
+  if String.eqb (av_addr v) a then (av_addr v, g (snd (fst v)), snd v) else v.
+Definition av_has (l : list aview) (a : addr) : bool := existsb (fun v => String.eqb (av_addr v) a) l.
+(* what an upsert (of a transaction, of a metadata write, of an imported SET_METADATA) does to this view *)
+Definition av_upsert (l : list aview) (a : addr) (md : meta) (ins : Z) : list aview :=
+  if av_has l a then map (av_set (fun m => mmerge m md) a) l else l ++ [(a, md, ins)].
+
+Lemma av_addrs (accs : list account) : map av_addr (map av accs) = map a_addr accs.
+Proof. rewrite map_map. reflexivity. Qed.
+
+Lemma find_account_has accs a : av_has (map av accs) a = match find_account accs a with Some _ => true | None => false end.
+Proof.
+  unfold av_has, find_account. induction accs as [|y r IH]; [reflexivity|]. simpl. unfold av_addr at 1. simpl.
+  destruct (String.eqb (a_addr y) a); [reflexivity | exact IH].
+Qed.
+
+Lemma find_account_some accs a x : find_account accs a = Some x -> In x accs /\ a_addr x = a.
+Proof. unfold find_account. intros F. apply find_some in F. destruct F as [Hin E]. apply String.eqb_eq in E. split; assumption. Qed.
+
+Lemma nodup_addr_unique accs x y : NoDup (map a_addr accs) -> In x accs -> In y accs -> a_addr y = a_addr x -> y = x.
+Proof.
+  induction accs as [|z r IH]; intros Hnd Hx Hy E; [destruct Hx|].
+  simpl in Hnd. inversion Hnd as [|? ? Hnot Hnd']; subst.
+  destruct Hx as [->|Hx], Hy as [->|Hy]; try reflexivity.
+  - exfalso. apply Hnot. rewrite <- E. apply in_map. exact Hy.
+  - exfalso. apply Hnot. rewrite E. apply in_map. exact Hx.
+  - apply IH; assumption.
+Qed.
+
+Lemma av_set_same_addr g a l : map av_addr (map (av_set g a) l) = map av_addr l.
+Proof. rewrite map_map. apply map_ext. intros v. unfold av_set. destruct (String.eqb (av_addr v) a); reflexivity. Qed.
+
+Lemma av_has_false_notin l a : av_has l a = false -> ~ In a (map av_addr l).
+Proof.
+  unfold av_has. intros Hf Hin. apply in_map_iff in Hin. destruct Hin as [v [E Hin]].
+  assert (X : existsb (fun v0 => String.eqb (av_addr v0) a) l = true) by (apply existsb_exists; exists v; split; [exact Hin | rewrite E; apply String.eqb_refl]).
+  rewrite X in Hf. discriminate.
+Qed.
+
+Lemma av_upsert_nodup l a md ins : NoDup (map av_addr l) -> NoDup (map av_addr (av_upsert l a md ins)).
+Proof.
+  intros Hnd. unfold av_upsert. destruct (av_has l a) eqn:Hh.
+  - rewrite av_set_same_addr. exact Hnd.
+  - rewrite map_app. simpl. apply nodup_snoc; [exact Hnd | apply av_has_false_notin; exact Hh].
+Qed.
+
+Lemma av_set_noop g a l : av_has l a = false -> map (av_set g a) l = l.
+Proof.
+  unfold av_has. induction l as [|v r IH]; [reflexivity|]. simpl. intros Hf. apply orb_false_iff in Hf. destruct Hf as [H1 H2].
+  unfold av_set at 1. rewrite H1, (IH H2). reflexivity.
+Qed.
+
+Lemma needs_false_merge x md first : acc_needs_update x md first = false -> mmerge (a_meta x) md = a_meta x.
+Proof.
+  unfold acc_needs_update. intros Hf. apply orb_false_iff in Hf. destruct Hf as [_ Hc]. apply negb_false_iff in Hc.
+  apply ReplayProofs.mmerge_contained. exact Hc.
+Qed.
+
+(* Store.UpsertAccounts on the view: whether or not the UPDATE fires (that depends on first usage), the view of the
+   result is av_upsert of the view *)
+Lemma upsert_account_av h now accs hist a md first ins upd :
+  NoDup (map a_addr accs) ->
+  map av (fst (upsert_account h now (accs, hist) a md first ins upd)) = av_upsert (map av accs) a md (opt_default now ins).
+Proof.
+  intros Hnd. unfold upsert_account, av_upsert. rewrite find_account_has.
+  destruct (find_account accs a) as [x|] eqn:F.
+  - destruct (find_account_some _ _ _ F) as [Hin Hx].
+    destruct (acc_needs_update x md first) eqn:N; cbn [fst].
+    + rewrite !map_map. apply map_ext. intros y. unfold av_set, av, av_addr. cbn [fst snd].
+      destruct (String.eqb (a_addr y) a); cbn [andb]; [|reflexivity].
+      destruct (acc_needs_update y md first) eqn:Ny; [reflexivity|]. cbn [a_addr a_meta a_ins]. rewrite (needs_false_merge _ _ _ Ny). reflexivity.
+    + rewrite map_map. rewrite <- (map_id accs) at 1. rewrite map_map. apply map_ext_in. intros y Hy. unfold av_set, av, av_addr. cbn [fst snd].
+      destruct (String.eqb (a_addr y) a) eqn:E; [|reflexivity]. apply String.eqb_eq in E.
+      assert (y = x) by (apply (nodup_addr_unique accs); [exact Hnd | exact Hin | exact Hy | congruence]). subst y.
+      rewrite (needs_false_merge _ _ _ N). reflexivity.
+  - cbn [fst]. rewrite map_app. reflexivity.
+Qed.
+
+Lemma imp_acc_set_av h d accs hist a md :
+  NoDup (map a_addr accs) ->
+  map av (fst (imp_acc_set h d (accs, hist) a md)) = av_upsert (map av accs) a md d.
+Proof.
+  intros Hnd. unfold imp_acc_set, av_upsert. rewrite find_account_has.
+  destruct (find_account accs a) as [x|] eqn:F.
+  - destruct (find_account_some _ _ _ F) as [Hin Hx].
+    destruct (mcontains (a_meta x) md) eqn:N; cbn [fst].
+    + rewrite map_map. rewrite <- (map_id accs) at 1. rewrite map_map. apply map_ext_in. intros y Hy. unfold av_set, av, av_addr. cbn [fst snd].
+      destruct (String.eqb (a_addr y) a) eqn:E; [|reflexivity]. apply String.eqb_eq in E.
+      assert (y = x) by (apply (nodup_addr_unique accs); [exact Hnd | exact Hin | exact Hy | congruence]). subst y.
+      rewrite (ReplayProofs.mmerge_contained _ _ N). reflexivity.
+    + rewrite !map_map. apply map_ext. intros y. unfold av_set, av, av_addr. cbn [fst snd].
+      destruct (String.eqb (a_addr y) a); cbn [andb]; [|reflexivity].
+      destruct (mcontains (a_meta y) md) eqn:Ny; cbn [negb]; [|reflexivity]. rewrite (ReplayProofs.mmerge_contained _ _ Ny). reflexivity.
+  - cbn [fst]. rewrite map_app. reflexivity.
+Qed.
+
+(* the fold of UpsertAccounts over the accounts of a transaction *)
+Lemma upsert_fold_av h now (g : addr -> meta) first ins upd (l : list addr) : forall accs hist,
+  NoDup (map a_addr accs) ->
+  map av (fst (fold_left (fun st a => upsert_account h now st a (g a) first ins upd) l (accs, hist))) =
+  fold_left (fun v a => av_upsert v a (g a) (opt_default now ins)) l (map av accs).
+Proof.
+  induction l as [|a r IH]; intros accs hist Hnd; [reflexivity|].
+  cbn [fold_left]. destruct (upsert_account h now (accs, hist) a (g a) first ins upd) as [accs1 hist1] eqn:U.
+  assert (E1 : map av accs1 = av_upsert (map av accs) a (g a) (opt_default now ins)).
+  { pose proof (upsert_account_av h now accs hist a (g a) first ins upd Hnd) as X. rewrite U in X. exact X. }
+  rewrite IH.
+  - rewrite E1. reflexivity.
+  - rewrite <- av_addrs, E1. apply av_upsert_nodup. rewrite av_addrs. exact Hnd.
+Qed.
+
+Lemma av_fold_nodup (g : addr -> meta) ins (l : list addr) : forall v, NoDup (map av_addr v) ->
+  NoDup (map av_addr (fold_left (fun v a => av_upsert v a (g a) ins) l v)).
+Proof. induction l as [|a r IH]; intros v Hnd; [exact Hnd|]. cbn [fold_left]. apply IH. apply av_upsert_nodup. exact Hnd. Qed.
+
 (* ---------------------------------------------------------------- the relation *)
 Record Sim (f : features) (mv acc : bool) (s c : state) : Prop := {
   sim_vols : s_vols c = s_vols s;
@@ -76,11 +195,16 @@ Record Sim (f : features) (mv acc : bool) (s c : state) : Prop := {
   sim_thist : s_thist c = s_thist s;
   sim_logs : s_logs c = s_logs s;
   sim_mv : mv = true -> s_moves c = s_moves s /\ s_txs c = s_txs s /\ (f_moves f = true -> s_next_seq c = s_next_seq s);
-  sim_acc : acc = true -> s_accounts c = s_accounts s /\ s_ahist c = s_ahist s
+  sim_acc : acc = true -> s_accounts c = s_accounts s /\ s_ahist c = s_ahist s;
+  sim_av : map av (s_accounts c) = map av (s_accounts s);       (* ALWAYS: address, current metadata, insertion date *)
+  sim_nd : NoDup (map a_addr (s_accounts s))
 }.
 
 Lemma sim_init f mv acc : Sim f mv acc init_state init_state.
-Proof. constructor; intros; repeat split; reflexivity. Qed.
+Proof. constructor; try reflexivity; try (intros; repeat split; reflexivity). constructor. Qed.
+
+Lemma nodup_copy s c : map av (s_accounts c) = map av (s_accounts s) -> NoDup (map a_addr (s_accounts s)) -> NoDup (map a_addr (s_accounts c)).
+Proof. intros E Hnd. rewrite <- av_addrs, E, av_addrs. exact Hnd. Qed.
 
 (* ---------------------------------------------------------------- CommitTransaction *)
 Lemma id_fresh s : InvT s -> id_taken (s_txs s) (s_next_tx s) = false.
@@ -96,7 +220,7 @@ Lemma imp_commit_sim f mv acc now s c ps md ts ref s1 t :
            s_accounts s1 = s_accounts s /\ s_ahist s1 = s_ahist s /\ s_logs c1 = s_logs c /\
            s_txs c1 = s_txs c ++ [t'] /\ tx_core t' = tx_core t /\ (mv = true -> t' = t).
 Proof.
-  intros HI [Hv Ht Hh Hl Hm Ha] E.
+  intros HI [Hv Ht Hh Hl Hm Ha Hav Hnd] E.
   pose proof (id_fresh s HI) as Hfresh.
   unfold commit_transaction in E.
   destruct (negb (ref =? "")%string && ref_taken (s_txs s) ref) eqn:R; [inversion E|].
@@ -124,6 +248,8 @@ Proof.
     + intros Hmv'. destruct (Hmv Hmv') as (A & B0 & C). destruct (Hm Hmv') as (_ & Hm2 & _). subst mvc nrc.
       split; [reflexivity|]. split; [rewrite Hm2; reflexivity | exact C].
     + exact Ha.
+    + exact Hav.
+    + exact Hnd.
   - intros Hmv'. destruct (Hmv Hmv') as (_ & B0 & _). subst nrc. reflexivity.
 Qed.
 
@@ -157,7 +283,7 @@ Lemma touch_tx_sim f mv acc s c x t fn :
   Sim f mv acc s c -> tx_core x = tx_core t -> (mv = true -> x = t) -> commutes fn ->
   Sim f mv acc (touch_tx f s t fn) (touch_tx f c x fn).
 Proof.
-  intros [Hv Ht Hh Hl Hm Ha] E Ex C.
+  intros [Hv Ht Hh Hl Hm Ha Hav Hnd] E Ex C.
   assert (Efn : tx_core (fn x) = tx_core (fn t)) by (rewrite !C, E; reflexivity).
   destruct (core_fields _ _ E) as (Eid & _). destruct (core_fields _ _ Efn) as (Eid' & Emeta' & _ & Eupd').
   constructor; unfold touch_tx; cbn [s_vols s_txs s_thist s_logs s_moves s_accounts s_ahist s_next_seq].
@@ -167,6 +293,8 @@ Proof.
   - exact Hl.
   - intros Hmv. destruct (Hm Hmv) as (A & B0 & D). rewrite (Ex Hmv), B0. repeat split; assumption.
   - exact Ha.
+  - exact Hav.
+  - exact Hnd.
 Qed.
 
 (* ---------------------------------------------------------------- account upsert of a transaction: the clock is irrelevant *)
@@ -185,11 +313,17 @@ Proof.
   - intros st a. apply upsert_account_clock.
 Qed.
 
+Lemma upsert_tx_accounts_accs f now s t amd :
+  s_accounts (upsert_tx_accounts f now s t amd) =
+  fst (fold_left (fun st a => upsert_account (f_acc_hist f) now st a (amd_get amd a) (Some (t_ts t)) (Some (t_ins t)) (Some (t_ins t)))
+                 (involved_accounts (t_postings t) amd) (s_accounts s, s_ahist s)).
+Proof. unfold upsert_tx_accounts. destruct (fold_left _ _ _) as [a h]. reflexivity. Qed.
+
 Lemma upsert_tx_accounts_sim f mv acc now now' s c t t' amd :
   Sim f mv acc s c -> tx_core t' = tx_core t ->
   Sim f mv acc (upsert_tx_accounts f now s t amd) (upsert_tx_accounts f now' c t' amd).
 Proof.
-  intros [Hv Ht Hh Hl Hm Ha] E.
+  intros [Hv Ht Hh Hl Hm Ha Hav Hnd] E.
   assert (Ets : t_ts t' = t_ts t) by exact (f_equal t_ts E).
   assert (Eins : t_ins t' = t_ins t) by exact (f_equal t_ins E).
   assert (Eps : t_postings t' = t_postings t) by exact (f_equal t_postings E).
@@ -204,10 +338,45 @@ Proof.
   - intros Hmv. rewrite A2, B2, A3, B3, A8, B8. apply Hm. exact Hmv.
   - intros Hacc. destruct (Ha Hacc) as [Ea Eh]. unfold upsert_tx_accounts. rewrite Ets, Eins, Eps, Ea, Eh.
     destruct (fold_left _ _ _) as [a h]. split; reflexivity.
+  - rewrite !upsert_tx_accounts_accs, Ets, Eins, Eps.
+    rewrite (upsert_fold_av _ _ _ _ _ _ _ _ _ (nodup_copy _ _ Hav Hnd)), (upsert_fold_av _ _ _ _ _ _ _ _ _ Hnd), Hav. reflexivity.
+  - rewrite upsert_tx_accounts_accs, <- av_addrs, (upsert_fold_av _ _ _ _ _ _ _ _ _ Hnd). apply av_fold_nodup. rewrite av_addrs. exact Hnd.
 Qed.
 
-Lemma with_accounts_sim f mv s c st st' : Sim f mv false s c -> Sim f mv false (with_accounts s st) (with_accounts c st').
-Proof. intros [Hv Ht Hh Hl Hm Ha]. constructor; try assumption. intros D; discriminate D. Qed.
+(* SET_METADATA on an account: the write path (UpsertAccounts with NULL dates at [now]) vs. its import
+   (UpdateAccountsMetadata dated [now] = the log date) *)
+Lemma acc_set_sim f mv s c now a md :
+  Sim f mv false s c ->
+  Sim f mv false (with_accounts s (upsert_account (f_acc_hist f) now (s_accounts s, s_ahist s) a md None None None))
+                 (with_accounts c (imp_acc_set (f_acc_hist f) now (s_accounts c, s_ahist c) a md)).
+Proof.
+  intros [Hv Ht Hh Hl Hm Ha Hav Hnd]. constructor; unfold with_accounts; cbn [s_vols s_txs s_thist s_logs s_moves s_accounts s_ahist s_next_seq]; try assumption.
+  - intros D; discriminate D.
+  - rewrite (imp_acc_set_av _ _ _ _ _ _ (nodup_copy _ _ Hav Hnd)), (upsert_account_av _ _ _ _ _ _ _ _ _ Hnd), Hav. reflexivity.
+  - rewrite <- av_addrs, (upsert_account_av _ _ _ _ _ _ _ _ _ Hnd). apply av_upsert_nodup. rewrite av_addrs. exact Hnd.
+Qed.
+
+(* DELETE_METADATA on an account: both sides rewrite the rows of the address (dated differently, which the view ignores) *)
+Lemma acc_del_view (accs : list account) a k upd :
+  map av (map (fun y => if String.eqb (a_addr y) a then {| a_addr := a_addr y; a_meta := mdel (a_meta y) k; a_first := a_first y; a_ins := a_ins y; a_upd := upd |} else y) accs)
+  = map (av_set (fun m => mdel m k) a) (map av accs).
+Proof. rewrite !map_map. apply map_ext. intros y. unfold av_set, av, av_addr. cbn [fst snd]. destruct (String.eqb (a_addr y) a); reflexivity. Qed.
+
+Lemma acc_del_addrs (accs : list account) a k upd :
+  map a_addr (map (fun y => if String.eqb (a_addr y) a then {| a_addr := a_addr y; a_meta := mdel (a_meta y) k; a_first := a_first y; a_ins := a_ins y; a_upd := upd |} else y) accs)
+  = map a_addr accs.
+Proof. rewrite map_map. apply map_ext. intros y. destruct (String.eqb (a_addr y) a); reflexivity. Qed.
+
+Lemma sim_accounts_change f mv s c sa sh ca ch :
+  Sim f mv false s c -> map av ca = map av sa -> NoDup (map a_addr sa) ->
+  Sim f mv false (with_accounts s (sa, sh)) (with_accounts c (ca, ch)).
+Proof.
+  intros [Hv Ht Hh Hl Hm Ha Hav Hnd] E N. constructor; unfold with_accounts; cbn [s_vols s_txs s_thist s_logs s_moves s_accounts s_ahist s_next_seq fst snd]; try assumption.
+  intros D; discriminate D.
+Qed.
+
+Lemma av_set_when_absent (accs : list account) g a : find_account accs a = None -> map (av_set g a) (map av accs) = map av accs.
+Proof. intros F. apply av_set_noop. rewrite find_account_has, F. reflexivity. Qed.
 
 (* ---------------------------------------------------------------- the log *)
 Lemma ik_free logs ik : find_ik logs ik = None -> ik_taken logs ik = false.
@@ -219,14 +388,9 @@ Qed.
 
 Lemma append_log_sim f mv acc s c l : Sim f mv acc s c -> Sim f mv acc (append_log s l) (imp_insert_log c l).
 Proof.
-  intros [Hv Ht Hh Hl Hm Ha]. constructor; unfold append_log, imp_insert_log; cbn [s_vols s_txs s_thist s_logs s_moves s_accounts s_ahist s_next_seq]; try assumption.
+  intros [Hv Ht Hh Hl Hm Ha Hav Hnd]. constructor; unfold append_log, imp_insert_log; cbn [s_vols s_txs s_thist s_logs s_moves s_accounts s_ahist s_next_seq]; try assumption.
   rewrite Hl. reflexivity.
 Qed.
-
-Lemma with_accounts_sim_l f mv s c st : Sim f mv false s c -> Sim f mv false (with_accounts s st) c.
-Proof. intros [Hv Ht Hh Hl Hm Ha]. constructor; try assumption. intros D; discriminate D. Qed.
-Lemma with_accounts_sim_r f mv s c st : Sim f mv false s c -> Sim f mv false s (with_accounts c st).
-Proof. intros [Hv Ht Hh Hl Hm Ha]. constructor; try assumption. intros D; discriminate D. Qed.
 
 Lemma find_tx_has_id txs id t : find_tx txs id = Some t -> t_id t = id.
 Proof. unfold find_tx. intros F. apply find_some in F. destruct F as [_ F]. apply Z.eqb_eq. exact F. Qed.
@@ -267,7 +431,7 @@ Proof.
     exists c1. split; [exact Ec | exact S2].
   - (* account metadata *)
     intros H; inversion H; subst; clear H. cbn [imp_payload]. eexists. split; [reflexivity|].
-    destruct acc; [exfalso; exact (Hacc eq_refl)|]. apply with_accounts_sim. exact S.
+    destruct acc; [exfalso; exact (Hacc eq_refl)|]. apply acc_set_sim. exact S.
   - (* transaction metadata *)
     destruct (find_tx (s_txs s) id) as [t|] eqn:F; [|discriminate].
     destruct (find_tx_sim f mv acc s c id t S F) as (x & Fx & Ex & Exm).
@@ -276,8 +440,14 @@ Proof.
     apply touch_tx_sim; [exact S | exact Ex | exact Exm | exact (commutes_tx_with (fun m => mmerge m md) now (fun r => r))].
   - (* account metadata deletion *)
     assert (Hf : acc = false) by (destruct acc; [exfalso; exact (Hacc eq_refl) | reflexivity]). subst acc.
-    destruct (find_account (s_accounts s) a); intros H; inversion H; subst; clear H; cbn [imp_payload]; unfold imp_acc_del; eexists; (split; [reflexivity|]);
-      destruct (find_account (s_accounts c) a); try apply with_accounts_sim; try apply with_accounts_sim_l; try apply with_accounts_sim_r; exact S.
+    assert (Hhas : match find_account (s_accounts c) a with Some _ => true | None => false end =
+                   match find_account (s_accounts s) a with Some _ => true | None => false end).
+    { rewrite <- !find_account_has, (sim_av _ _ _ _ _ S). reflexivity. }
+    destruct (find_account (s_accounts s) a) as [x|] eqn:Fs; intros H; inversion H; subst; clear H; cbn [imp_payload]; unfold imp_acc_del;
+      destruct (find_account (s_accounts c) a) as [x'|] eqn:Fc; try discriminate Hhas; eexists; (split; [reflexivity|]); [|exact S].
+    apply sim_accounts_change; [exact S | | ].
+    + rewrite !acc_del_view, (sim_av _ _ _ _ _ S). reflexivity.
+    + rewrite acc_del_addrs. exact (sim_nd _ _ _ _ _ S).
   - (* transaction metadata deletion *)
     destruct (find_tx (s_txs s) id) as [t|] eqn:F; [|discriminate].
     destruct (find_tx_sim f mv acc s c id t S F) as (x & Fx & Ex & Exm).
@@ -318,7 +488,7 @@ Qed.
 Lemma only_sequences_sim f mv acc s c s1 : Sim f mv acc s c ->
   (mv = true -> f_moves f = true -> s_next_seq s1 = s_next_seq s) -> Sim f mv acc (only_sequences s s1) c.
 Proof.
-  intros [Hv Ht Hh Hl Hm Ha] Hs. constructor; unfold only_sequences; cbn [s_vols s_txs s_thist s_logs s_moves s_accounts s_ahist s_next_seq]; try assumption.
+  intros [Hv Ht Hh Hl Hm Ha Hav Hnd] Hs. constructor; unfold only_sequences; cbn [s_vols s_txs s_thist s_logs s_moves s_accounts s_ahist s_next_seq]; try assumption.
   intros Hmv. destruct (Hm Hmv) as (A & B0 & C). repeat split; try assumption. intros Fm. rewrite (Hs Hmv Fm). exact (C Fm).
 Qed.
 
